@@ -5,6 +5,8 @@ import re
 import hir as H
 import mir as M
 import rulelib as L
+import symrules as SR
+import sym
 import spec_tables as S
 
 CRATES = ["identity_credential", "identity_iota_core", "identity_document"]
@@ -143,33 +145,45 @@ def run(F, R, tier):
     # ------------------------------------------------------------------ R3 read-modify-write
     r3 = R.rule("C06-R3", "T3+T2+T4", "update_revocation_bitmap writes back the bitmap decoded from the same service and touched only by the closure; revoke/unrevoke closures apply the operation to every index; revoke↔insert, unrevoke↔remove, is_revoked↔contains")
     fn = EXT + "::update_revocation_bitmap"
-    h = F.hir(fn)
-    if r3.anchor(h, fn):
-        env = H.Env(h)
-        tf_ = H.calls(h, re.compile(r"RevocationBitmap as core::convert::TryFrom<&.*Service>>::try_from$|TryFrom::try_from$"))
-        r3.require(len(tf_) == 1, (fn, "decode"), "expected one RevocationBitmap::try_from(&service)")
-        for c in tf_:
-            oo = H.origins(c["args"][0], env, extra=re.compile(r"query_mut$|service_mut_unchecked$"))
-            r3.site("bitmap decoded from %s" % sorted(map(str, oo)), c["sp"])
-            r3.require(("param", "document") in oo and oo <= {("param", "document"), ("param", "service_query")}, (fn, "decode-source"), "the bitmap is not decoded from the queried service of the document")
-        q = [n for n in H.walk(H.root(h)) if n.get("k") == "mcall" and n["name"] == "query_mut"]
-        r3.require(len(q) == 1 and H.origins(q[0]["args"][0], env) == {("param", "service_query")}, (fn, "query"), "the service is not looked up with service_query")
-        # the closure is applied exactly once to the decoded bitmap, between decode and write-back
-        calls_f = [n for n in H.walk(H.root(h)) if n.get("k") == "call" and H.local_name(n.get("callee")) == "f"]
-        r3.require(len(calls_f) == 1 and H.local_name(calls_f[0]["args"][0]) == "revocation_bitmap", (fn, "apply"), "the update closure is not applied exactly once to the decoded bitmap")
-        sw = H.calls(h, re.compile(r"core::mem::swap$"))
-        if r3.require(len(sw) == 1, (fn, "write-back"), "the endpoint is not swapped in exactly once"):
-            a0 = H.strip(sw[0]["args"][0])
-            a1 = sw[0]["args"][1]
-            ok0 = a0.get("k") == "mcall" and a0["name"] == "service_endpoint_mut" and H.local_name(a0["recv"]) == "service"
-            t1 = H.try_inner(a1)
-            ok1 = t1 is not None and H.strip(t1).get("k") == "mcall" and (H.fn_name(H.strip(t1)) or "") == RB + "::to_endpoint" and H.local_name(H.strip(t1)["recv"]) == "revocation_bitmap"
-            r3.site("write-back: swap(service.service_endpoint_mut(), &mut revocation_bitmap.to_endpoint()?): %s %s" % (ok0, ok1), sw[0]["sp"])
-            r3.require(ok0 and ok1, (fn, "write-back-args"), "the value written back is not to_endpoint() of the updated bitmap into the same service (error propagated before the swap)")
-            tree = H.Tree(h)
-            pre = tree.preceding(sw[0])
-            order_ok = any(calls_f and x is calls_f[0] or (calls_f and calls_f[0] in list(H.walk(x))) for x in pre)
-            r3.require(order_ok, (fn, "order"), "the closure is not applied before the write-back")
+    if r3.anchor(F.hir(fn), fn):
+        OPQ = r"Queryable.*::query(_mut)?$|service_mut_unchecked$|RevocationBitmap as core::convert::TryFrom|RevocationBitmap::to_endpoint$|service_endpoint_mut$"
+        tab = SR.Table(F, fn, opaque=OPQ, rule=r3)
+        DOC, QRY = SR.param("document"), SR.param("service_query")
+        n = 0
+        for q in tab.ok():
+            n += 1
+            qs = [e for e in q.calls(r"query_mut$") if q.succeeded(e) is True]
+            if not r3.require(len(qs) == 1 and SR.derives(qs[0].args[0], DOC) and sym.term(qs[0].args[1]) == QRY, (fn, "query"), "the service is not looked up in the document with service_query"):
+                continue
+            svc = ("payload", qs[0].result.t, "Some", 0)
+            dec = [e for e in q.calls(r"RevocationBitmap as core::convert::TryFrom") if q.succeeded(e) is True]
+            if not r3.require(len(dec) == 1 and sym.term(dec[0].args[0]) == svc, (fn, "decode-source"), "the bitmap is not decoded from the queried service (exactly once, error propagated)"):
+                continue
+            bm = ("payload", dec[0].result.t, "Ok", 0)
+            idx = {id(e): i for i, e in enumerate(q.events)}
+            pnames = [p_.get("name") for p_ in F.hir(fn).get("params", []) if p_.get("k") == "bind"]
+            app = [e for e in q.events if e.kind == "call" and e.fn is None and e.name in pnames]   # a call of the closure parameter
+            r3.require(len(app) == 1 and sym.term(app[0].args[0]) == bm, (fn, "apply"), "the update closure is not applied exactly once to the decoded bitmap")
+            enc = [e for e in q.calls(r"RevocationBitmap::to_endpoint$") if q.succeeded(e) is True and sym.term(e.args[0]) == bm]
+            if not r3.require(len(enc) == 1, (fn, "write-back-args"), "the value written back is not to_endpoint()? of the updated bitmap"):
+                continue
+            newep = ("payload", enc[0].result.t, "Ok", 0)
+            # the write: mem::swap(service.service_endpoint_mut(), &mut endpoint) or `*service.service_endpoint_mut() = endpoint`
+            places = [e for e in q.calls(r"service_endpoint_mut$") if sym.term(e.args[0]) == svc]
+            wr = []
+            for e in q.events:
+                if e.kind == "call" and (e.fn or "").endswith("core::mem::swap") and places and sym.term(e.args[0]) == places[0].result.t and sym.term(e.args[1]) == newep:
+                    wr.append(e)
+                if e.kind == "write" and places and sym.term(e.args[0]) == places[0].result.t and sym.term(e.args[1]) == newep:
+                    wr.append(e)
+            if r3.require(len(wr) == 1, (fn, "write-back"), "the new endpoint is not stored exactly once into the same service"):
+                r3.require(app and idx[id(app[0])] < idx[id(enc[0])] < idx[id(wr[0])], (fn, "order"), "closure application, encoding and write-back are not in this order (the service must only change after a successful encode)")
+        for q in tab.err():
+            ws = [e for e in q.events if e.kind == "write" or (e.kind == "call" and (e.fn or "").endswith("core::mem::swap"))]
+            r3.require(not ws, (fn, "write-on-error"), "the service is modified on a path that returns an error")
+        r3.site("bitmap decoded from the service found by service_query")
+        r3.site("update closure applied once, then to_endpoint()? then write-back into the same service (%d accepting path(s))" % n)
+        r3.require(n > 0 or not tab.paths, (fn, "no-success"), "update_revocation_bitmap has no accepting path")
     for fn, op in (("revoke_credentials", "revoke"), ("unrevoke_credentials", "unrevoke")):
         cands = F.find(r"^<identity_document::document::core_document::CoreDocument as identity_credential::revocation::revocation_bitmap_2022::document_ext::RevocationDocumentExt>::%s$" % fn)
         if not r3.require(bool(cands), (fn, "ANCHOR"), "%s not found" % fn):
